@@ -53,13 +53,14 @@ def extreme_cases(c):
         ([(0, MAXVAL), (MAXVAL, 0)], None), ([(0, 0), (MAXVAL, MAXVAL)], None), ([(MAXVAL - 1, MAXVAL), (MAXVAL, 0)], None),
         ([(0, 1), (1, MAXVAL)], None), ([(0, MAXVAL), (1, MAXVAL - 1), (MAXVAL, MAXVAL)], None),
         ([(0, 3), (MAXVAL + 1, 5)], "bad"), ([(0, MAXVAL + 1), (5, 5)], "bad"), ([(0, 2 ** 64 - 1), (1, 1)], "bad"), ([(2 ** 64 - 2, 1), (2 ** 64 - 1, 1)], "bad"),
-        ([(MAXVAL, 1), (MAXVAL, 2)], "bad"), ([(MAXVAL, 7)], "bad"),
+        ([(MAXVAL, 1), (MAXVAL, 2)], "bad"), ([(0, 1), (MAXVAL, 2), (MAXVAL, 3)], "bad"), ([(5, 1), (4, 2)], "bad"),
     ]
     for dots, _ in fixed:
         cases.append(dots)
-    for _ in range(c.pick(6, 40)):
-        n = rnd.choice([2, 2, 3, 4])
+    for _ in range(c.pick(20, 120)):
+        n = rnd.choice([2, 2, 3])
         xs = sorted(set(rnd.choice([rnd.choice(big), rnd.randrange(0, MAXVAL + 1), rnd.randrange(0, 2 ** 40)]) for _ in range(n)))
+        xs = xs[:3]
         if len(xs) < 2:
             xs = [xs[0], min(MAXVAL, xs[0] + 1 + rnd.randrange(0, 10 ** 9))] if xs[0] < MAXVAL else [0, xs[0]]
         ys = [rnd.choice([rnd.choice(big), rnd.randrange(0, MAXVAL + 1)]) for _ in xs]
@@ -170,6 +171,7 @@ def run(c):
         samples=rep["samples"][:2] + ext[:2],
     )
     cov.update(obl.summary())
+    cov["apalache_runs"] = cov["apalache_runs"] + ext_obl.results
     return c.finish("exploration", cov, assumptions=[
         "the clauses are proved for ONE pair of neighbouring dots over the whole range (Apalache); piece selection, out-of-range behaviour and list "
         "validation are model-checked by TLC on small lists only",
